@@ -38,32 +38,35 @@ var statusCmd = &cobra.Command{
 			return fmt.Errorf("fail to get files: %w", err)
 		}
 		for _, filePath := range filePaths {
-			_, entry, isRegistered := client.Idx.GetEntry([]byte(filePath))
-
-			if !isRegistered { // new file
+			if _, _, isRegistered := client.Idx.GetEntry([]byte(filePath)); !isRegistered { // new file
 				newFiles = append(newFiles, filePath)
-			} else {
-				// check if the file is modified
-				data, err := os.ReadFile(filePath)
-				if err != nil {
-					return fmt.Errorf("fail to read %s: %w", filePath, err)
-				}
-				obj, err := object.NewObject(object.BlobObject, data)
-				if err != nil {
-					return fmt.Errorf("fail to get new object: %w", err)
-				}
-				if !entry.Hash.Compare(obj.Hash) {
-					modifiedFiles = append(modifiedFiles, filePath)
-				}
 			}
 		}
 
-		// walk through index
+		// walk through index: a tracked file is compared with its staged blob even if a
+		// .goitignore entry written later matches it
 		var deletedFiles []string
 		for _, entry := range client.Idx.Entries {
 			filePath := string(entry.Path)
-			if _, err := os.Stat(filePath); os.IsNotExist(err) {
+			info, err := os.Stat(filePath)
+			if os.IsNotExist(err) {
 				deletedFiles = append(deletedFiles, filePath)
+				continue
+			}
+			if err != nil || info.IsDir() {
+				continue
+			}
+			// check if the file is modified
+			data, err := os.ReadFile(filePath)
+			if err != nil {
+				return fmt.Errorf("fail to read %s: %w", filePath, err)
+			}
+			obj, err := object.NewObject(object.BlobObject, data)
+			if err != nil {
+				return fmt.Errorf("fail to get new object: %w", err)
+			}
+			if !entry.Hash.Compare(obj.Hash) {
+				modifiedFiles = append(modifiedFiles, filePath)
 			}
 		}
 
